@@ -563,14 +563,30 @@ fn cmd_emit(args: &[String]) {
         let mut wits: Vec<ir::Witness> = vec![];
         if let Some(lt) = &b.leaf_targets {
             for (label, inputs, aux) in leafgen::honest_inputs(seed) {
-                let mut pw = PartialWitness::new();
-                wormhole_prover::fill_witness(&mut pw, &inputs, lt).expect("fill_witness");
-                match ir::honest_witness(&b.data, pw, &label) {
-                    Ok(mut w) => {
+                // a real witness filler / generator that rejects a well-formed honest input is DATA for the
+                // checker (C05 completeness at the prover boundary), not an emitter error
+                let res = std::panic::catch_unwind(std::panic::AssertUnwindSafe(|| {
+                    let mut pw = PartialWitness::new();
+                    match wormhole_prover::fill_witness(&mut pw, &inputs, lt) {
+                        Ok(()) => ir::honest_witness(&b.data, pw, &label).map_err(|e| format!("witness generation: {e}")),
+                        Err(e) => Err(format!("wormhole_prover::fill_witness: {e}")),
+                    }
+                }));
+                match res {
+                    Ok(Ok(mut w)) => {
                         w.aux = aux;
                         wits.push(w)
                     }
-                    Err(e) => panic!("honest leaf witness {label}: {e}"),
+                    Ok(Err(e)) => wits.push(ir::Witness {
+                        label: format!("{label}:GENFAIL"),
+                        vals: BTreeMap::new(),
+                        aux: format!("{{\"genfail\":{:?},\"inputs\":{aux}}}", e),
+                    }),
+                    Err(_) => wits.push(ir::Witness {
+                        label: format!("{label}:GENFAIL"),
+                        vals: BTreeMap::new(),
+                        aux: format!("{{\"genfail\":\"witness filler panicked\",\"inputs\":{aux}}}"),
+                    }),
                 }
             }
         }
